@@ -17,6 +17,7 @@ import (
 func init() { register(&Spec{ID: "C14", Targets: []load.Target{load.Linux, load.Wasm}, Run: runC14}) }
 
 func runC14(c *core.Ctx) {
+	runFixtures(c, "drop", "nilguard")
 	c.Explain("Structural clauses of C14 decided from source; 'inject a fault at each store call index' becomes 'follow the error edge of each fallible call': (R14.1) the []OpResult of every Transaction.Commit in packages keyvalue/mem is not discarded: it is returned to a caller that reads it, or each element's Err is read and reaches a return; (R14.2) for every fallible call in package keyvalue (Store/Transaction/FileRecord/blob calls, save, setFile, getFile…, on both the serial-fallback and TransactionStore paths) the error is returned, wrapped or handed on along every failing path (accepted: errors.Is(ErrNotExist/ErrExist) look-up idioms — those are not store failures —, closing read-only handles, aborting on an error path); (R14.3a) the pointer/interface result that came with a non-nil error is never invoked or dereferenced on that path; (R14.3b) a struct field assigned together with an error field from one call is never invoked without a dominating nil-test of it or of the paired error; (R14.4) each Go-level Transaction implementation stores the store's Get/Set error into the recorded OpResult.Err. NOT claimed: that a fresh look-up shows exactly what the store holds after a fault, hang-freedom, panics from index expressions on result slices, examples/s3 (not loadable offline).")
 	c.Assume("A1: a Store/Transaction/FileRecord implementation reports failure through its error result", "A6: partial correctness")
 	c.RuleDoc("R14.1", "commit results are read")
@@ -119,6 +120,10 @@ func r14Commit(c *core.Ctx, p *load.Program) {
 					return
 				}
 				if resultsErrRead(res, fn) {
+					if why := resultsCoverage(res, fn, cl); why != "" {
+						c.Bad("R14.1", key, p.Pos(cl.Pos()), fmt.Sprintf("%s: %s — an operation the store refused earlier in the transaction is reported as success", fname(fn), why))
+						return
+					}
 					c.OK("R14.1", key, p.Pos(cl.Pos()), "each result's Err is read and reaches a return")
 				} else if returned(res, fn) {
 					c.OK("R14.1", key, p.Pos(cl.Pos()), "results returned to the caller")
@@ -420,4 +425,119 @@ func r14Record(c *core.Ctx, p *load.Program) {
 			})
 		}
 	}
+}
+
+// resultsCoverage: "" if the Err of EVERY result is read: inside a loop over the results, or at every constant index
+// 0..N-1 where N is the number of operations this function issued on the transaction. Otherwise a reason.
+func resultsCoverage(res ssa.Value, fn *ssa.Function, commit *ssa.Call) string {
+	loop := false
+	idxs := map[int64]bool{}
+	other := false
+	seen := map[ssa.Value]bool{}
+	var walk func(v ssa.Value, d int)
+	walk = func(v ssa.Value, d int) {
+		if v == nil || seen[v] || d > 6 || v.Referrers() == nil {
+			return
+		}
+		seen[v] = true
+		for _, r := range *v.Referrers() {
+			switch x := r.(type) {
+			case *ssa.IndexAddr:
+				if k, ok := ssax.ConstInt(x.Index); ok {
+					idxs[k] = true
+				} else if _, isPhi := ssax.StripIntConv(x.Index).(*ssa.Phi); isPhi {
+					loop = true
+				} else if bo, isB := ssax.StripIntConv(x.Index).(*ssa.BinOp); isB && bo.Op == token.ADD {
+					// rotated range loop: index = phi + 1
+					if _, isPhi := bo.X.(*ssa.Phi); isPhi {
+						loop = true
+					} else {
+						other = true
+					}
+				} else {
+					other = true
+				}
+			case *ssa.Range:
+				loop = true
+			case *ssa.Phi:
+				walk(x, d+1)
+			case *ssa.Call:
+				if callee := ssax.StaticCallee(x); callee != nil && callee.Blocks != nil {
+					for i, a := range x.Call.Args {
+						if a == v && i < len(callee.Params) {
+							if resultsCoverage(callee.Params[i], callee, nil) == "" {
+								loop = true
+							}
+						}
+					}
+				}
+			}
+		}
+	}
+	walk(res, 0)
+	if loop {
+		return ""
+	}
+	// number of operations issued on this transaction value in this function
+	n := int64(-1)
+	if commit != nil {
+		txn := commit.Call.Value
+		if _, isParam := txn.(*ssa.Parameter); !isParam {
+			n = 0
+			inLoop := false
+			ssax.Instrs(fn, func(ins ssa.Instruction) {
+				cl, ok := ins.(*ssa.Call)
+				if !ok || cl == commit {
+					return
+				}
+				issues := false
+				if cl.Call.IsInvoke() && cl.Call.Value == txn {
+					switch cl.Call.Method.Name() {
+					case "Get", "GetHandler", "Set", "SetHandler":
+						issues = true
+					}
+				}
+				if callee := ssax.StaticCallee(cl); callee != nil {
+					for _, a := range cl.Call.Args {
+						if a == txn {
+							issues = true
+						}
+					}
+				}
+				if issues {
+					n++
+					// inside a loop?
+					for _, b := range fn.Blocks {
+						if b != cl.Block() && cl.Block().Dominates(b) {
+							for _, s := range b.Succs {
+								if s == cl.Block() {
+									inLoop = true
+								}
+							}
+						}
+					}
+					for _, s := range cl.Block().Succs {
+						if s == cl.Block() {
+							inLoop = true
+						}
+					}
+				}
+			})
+			if inLoop {
+				n = -1
+			}
+		}
+	}
+	if n < 0 {
+		return "the number of operations in the transaction is not fixed here, but only selected results are inspected (not a loop over all of them)"
+	}
+	for i := int64(0); i < n; i++ {
+		if !idxs[i] {
+			return fmt.Sprintf("%d operation(s) were issued but the Err of result #%d is never read", n, i)
+		}
+	}
+	if other && len(idxs) == 0 {
+		return "only a computed index of the results is inspected"
+	}
+	return ""
 }
